@@ -17,13 +17,13 @@ var errSim = errors.New("verifsim: injected I/O error")
 // ReadSched is a sparse description of how a simulated reader delivers its
 // bytes.  Every field's zero value is the simplest behaviour.
 type ReadSched struct {
-	ByteReader  bool        `json:"byte_reader,omitempty"`   // also implements io.ByteReader
-	Chunk       int         `json:"chunk_policy"`            // 0 = as much as asked, 1 = one byte, 2 = seeded 1..7
-	ChunkSeed   uint64      `json:"chunk_seed,omitempty"`    // for policy 2
-	EOFWithData bool        `json:"eof_with_last_data"`      // final bytes delivered together with io.EOF
-	ZeroReads   map[int]int `json:"zero_reads,omitempty"`    // offset -> number of (0,nil) reads before data at that offset
-	ErrAt       int         `json:"error_at"`                // -1: none; else (0,errSim) once pos reaches it (sticky)
-	CutAt       int         `json:"cut_at"`                  // -1: none; else the stream ends (EOF) at this offset
+	ByteReader  bool        `json:"byte_reader,omitempty"` // also implements io.ByteReader
+	Chunk       int         `json:"chunk_policy"`          // 0 = as much as asked, 1 = one byte, 2 = seeded 1..7
+	ChunkSeed   uint64      `json:"chunk_seed,omitempty"`  // for policy 2
+	EOFWithData bool        `json:"eof_with_last_data"`    // final bytes delivered together with io.EOF
+	ZeroReads   map[int]int `json:"zero_reads,omitempty"`  // offset -> number of (0,nil) reads before data at that offset
+	ErrAt       int         `json:"error_at"`              // -1: none; else (0,errSim) once pos reaches it (sticky)
+	CutAt       int         `json:"cut_at"`                // -1: none; else the stream ends (EOF) at this offset
 }
 
 func (s *ReadSched) String() string {
@@ -87,10 +87,10 @@ type SimReader struct {
 	errSent bool
 	end     int
 	// fault / probe bookkeeping
-	ZeroDelivered int
+	ZeroDelivered        int
 	EOFWithDataDelivered bool
-	ErrDelivered  bool
-	CutDelivered  bool
+	ErrDelivered         bool
+	CutDelivered         bool
 }
 
 func NewSimReader(c *Ctx, name string, data []byte, s *ReadSched) *SimReader {
